@@ -1,7 +1,7 @@
 (* C06/Properties.v — property theorems only (each closed by [exact lemma] and followed by
    [Print Assumptions]).  Model: C06/Model.v (the code after fix commits 3a7f18b, 811f017, 2c8a29b). *)
 From Coq Require Import String Permutation Morphisms Sorted.
-From RM Require Import C06.Model C06.GenModel C06.Proofs C06.Proofs2 C06.Proofs3 C06.Proofs4 C06.Proofs5 C06.Proofs6 C06.Proofs7 C06.Proofs8 C06.Proofs9 C06.Driver C06.GenDriver Gen.UnwindConsts.
+From RM Require Import C06.Model C06.GenModel C06.Proofs C06.Proofs2 C06.Proofs3 C06.Proofs4 C06.Proofs5 C06.Proofs6 C06.Proofs7 C06.Proofs8 C06.Proofs9 C06.Proofs10 C06.Driver C06.GenDriver Gen.UnwindConsts.
 Open Scope Z_scope.
 
 (* No Panic and no OutOfFuel: for ALL rule texts (arbitrary byte strings), every walker (any
@@ -423,3 +423,22 @@ Theorem c06_post_real_consts_pinned :
   x86_sp_stop_le = true /\ amd64_sp_stop_le = true.
 Proof. exact post_real_consts_pinned. Qed.
 Print Assumptions c06_post_real_consts_pinned.
+
+(* Literals ([parse_int] is shared by the implementation model and [spec_lex]): a token is a literal of value v
+   exactly when it is an optional single sign followed by one or more decimal digits and nothing else, and
+   -2^63 <= v <= 2^63 - 1 (so `+5`, `-0`, `00012`, `-9223372036854775808` are literals; `9223372036854775808`, `--5`,
+   `+`, `1_0`, `0x10` are not and fall through to the register lookup). *)
+Theorem c06_literal_spec :
+  forall t v,
+    parse_int 64 t = Some v <->
+    exists neg ds, lit_shape t neg ds /\ ds <> [] /\ forallb is_digit ds = true /\
+                   v = (if neg then - dec_val ds else dec_val ds) /\
+                   (if neg then dec_val ds <= 2 ^ 63 else dec_val ds < 2 ^ 63).
+Proof. exact (parse_int_spec 64). Qed.
+Print Assumptions c06_literal_spec.
+
+Example c06_nonvacuous_literal :
+  parse_int 64 (bs "-9223372036854775808") = Some (-9223372036854775808) /\ parse_int 64 (bs "9223372036854775808") = None /\
+  parse_int 64 (bs "+5") = Some 5 /\ parse_int 64 (bs "-0") = Some 0 /\ parse_int 64 (bs "00012") = Some 12 /\
+  parse_int 64 (bs "--5") = None /\ parse_int 64 (bs "+") = None /\ parse_int 64 (bs "1_0") = None.
+Proof. vm_compute. repeat split; reflexivity. Qed.
